@@ -727,6 +727,10 @@ class Enum(MetricWrapperBase):
             raise ValueError(f'Overlapping labels for Enum metric: {name}')
         if not states:
             raise ValueError(f'No states provided for Enum metric: {name}')
+        # Set before the base constructor runs: it registers the metric, and a collect()
+        # in another thread may reach this object before the constructor returns.
+        # Copy: later changes to the caller's sequence must not alter the metric or its children.
+        self._states = list(states)
         super().__init__(
             name=name,
             documentation=documentation,
@@ -737,8 +741,7 @@ class Enum(MetricWrapperBase):
             registry=registry,
             _labelvalues=_labelvalues,
         )
-        # Copy: later changes to the caller's sequence must not alter the metric or its children.
-        self._kwargs['states'] = self._states = list(states)
+        self._kwargs['states'] = list(states)
 
     def _metric_init(self) -> None:
         self._value = 0
